@@ -32,11 +32,11 @@ ASSUMPTIONS = [
     "element values are opaque (theorems polymorphic in V); dtype promotion of data is not modelled",
     "index dtypes are unbounded integers in the model (can_store/astype upcast is exercised by the campaign only)",
     "conversion of DOK/GCXS members to COO and GCXS.change_compressed_axes are modelled by their meaning (C05)",
-    "take is modelled by the RESULT of the getitem it delegates to (C02), for one integer or one 1-d list on one axis "
-    "(take_int_den / take_list_den are theorems about that result model; the getitem algorithm itself is C02's)",
-    "GCXS joiners: the indptr splice is proved (indptr_splice_spec / indptr_splice_wf); their dense meaning "
-    "(gcxs_concat_den / gcxs_stack_den) is covered by correspondence only (exact data/indices/indptr comparison with "
-    "the model and dense comparison with the Spec on every all-GCXS case)",
+    "take: take_*_getitem_den are about COO.__getitem__ as transcribed by property C02 (Model/CooIndex.v) and rest on "
+    "C02's coo_getitem_den / coo_getitem_one_array_partial; take_int_den / take_list_den are about the result-level model",
+    "GCXS joiners: gcxs_concat_den / gcxs_stack_den (with gcxs_wfb of the result) are stated for members that are "
+    "canonical GCXS arrays (gcxs_from_coo of a canonical COO) and rest on property C05's change_axes_image, "
+    "gcxs_from_coo_den/wf, tocoo_from_coo (Model/Convert.v, Proofs/ConvertG.v, ConvertP.v)",
 ]
 
 FMT = {"coo": "COO", "gcxs": "GCXS", "dok": "DOK"}
@@ -655,6 +655,15 @@ def campaign(build, tier, seed, report, budget=1):
                       [dict(case=ec[i], impl=er[i].get("res") if er[i] else None) for i in (len(ec) // 3, len(ec) - 1)])
     cov["branch_tags"] = dict(sorted(tags.items()))
     cov["spec_vs_numpy_disagreements"] = spec_vs_numpy
+    cov["unproved_statements"] = [
+        "gcxs_stack_den: GCXS.reshape's kernel (_transpose onto the shape with a 1 inserted) is modelled by its "
+        "meaning (coo_expand of tocoo, then from_coo); the kernel itself is compared by correspondence only",
+        "take with axis=None on the real getitem path (x.flatten()[indices]): correspondence only "
+        "(take_*_getitem_den cover every integer axis)",
+        "triu / tril / diagonal for GCXS or DOK inputs: the code raises AttributeError (clause extract_input_not_COO)",
+        "conversion of DOK members to COO inside the COO joiner (C05) and index dtype widths (C15; only the bound "
+        "indptr_needed_bounds is proved here)",
+    ]
     cov["differential_only"] = ["result dtype / index dtype upcast (can_store, np.min_scalar_type): exercised, "
                                 "compared through the dense values only"]
     return viol
